@@ -54,6 +54,7 @@ type frame struct {
 	panic            any
 	visits           map[*ssa.BasicBlock]int
 	phisDone         bool
+	retDone          bool
 }
 
 // interp is the state of one worker.
@@ -391,6 +392,9 @@ func (in *interp) visitInstr(fr *frame, instr ssa.Instruction) bool {
 			b = c
 		case Sym:
 			if _, ok := in.tryIfConvert(fr, instr, c); ok {
+				if fr.retDone {
+					return true
+				}
 				return false
 			}
 			if in.tryChain(fr, instr, c) {
